@@ -805,7 +805,8 @@ namespace foonathan
                     for (std::size_t i = 0u; i != size_; ++i)
                         objects_[i].~T();
 
-                    if (size_)
+                    // also if the very first element could not be created
+                    if (stack_)
                         stack_->unwind(objects_);
                 }
 
@@ -830,6 +831,7 @@ namespace foonathan
                 {
                     auto res = size_;
                     size_    = 0u;
+                    stack_   = nullptr; // nothing to give back anymore
                     return res;
                 }
 
